@@ -241,14 +241,14 @@ def main(run):
     for name, ins in ([] if replay_only else G.templates()):
         exc.append((G.exc_line(ins), "template", True))
         exc.append((G.exc_line(ins, mid0=65533), "template", True))      # mid wraps inside the case
-    for i in range(0 if replay_only else 1500 if quick else 40000):
+    for i in range(0 if replay_only else 6000 if quick else 120000):
         honest = r.random() < 0.6
         maxr = r.choice([4, 4, 4, 1, 2, 7])
         exc.append((G.exc_line(G.random_exc(r, honest, maxr), maxr=maxr,
                                mid0=r.choice([100, 65530, 65534, 0, 7, 999]),
                                tok0=r.choice([0, 0, 254, 65534])),
                     "random-honest" if honest else "random-arbitrary", honest))
-    nfate = 5 if quick else 7
+    nfate = 6 if quick else 8
     for kind in (() if replay_only else ("real", "rfc")):
         for sty in G.STYLES:
             for fates in G.exhaustive_fates(nfate, 1500):
@@ -256,10 +256,10 @@ def main(run):
     if not quick and not replay_only:
         for kind in ("real", "rfc"):
             for sty in (1, 3):
-                for fates in G.exhaustive_fates(8, 1900):
+                for fates in G.exhaustive_fates(9, 1900):
                     exe.append((G.exe_line(kind, [(sty, 0, 0)], fates, seed=5, adelay=2500),
-                                "exhaustive8-" + kind, True))
-    for i in range(0 if replay_only else 1200 if quick else 30000):
+                                "exhaustive9-" + kind, True))
+    for i in range(0 if replay_only else 5000 if quick else 150000):
         kind = r.choice(["real", "real", "rfc"])
         nreq = r.choice([1, 2, 2, 3, 4])
         reqs = [(r.choice(G.STYLES), r.choice([1, 1, 1, 0]), r.choice([0, 0, 5, 400, 1800])) for _ in range(nreq)]
